@@ -54,6 +54,9 @@ func (m MessageWriter) Merge(src types.Message) error {
 
 // Build ends the message and returns its bytes.
 func (m *MessageWriter) Build() ([]byte, error) {
+	if m.w == nil {
+		return nil, errClosed
+	}
 	b, err := m.w.end()
 	m.w = nil
 	return b, err
@@ -61,6 +64,9 @@ func (m *MessageWriter) Build() ([]byte, error) {
 
 // End ends the message.
 func (m *MessageWriter) End() error {
+	if m.w == nil {
+		return errClosed
+	}
 	_, err := m.w.end()
 	m.w = nil
 	return err
